@@ -243,6 +243,7 @@ def families(tier):
         make_family('put_invs+put_traits', [put_invs(1), put_traits(2)]),
         make_family('put_traits+put_aggs', [put_traits(1), put_aggs(2)]),
         make_family('put_invs+put_alloc', [put_invs(1), put_alloc(2)]),
+        make_family('put_aggs+put_aggs', [put_aggs(1), put_aggs(2)]),
         # every guarded route at least once in the quick tier
         make_family('put_inv+put_aggs', [put_inv(1), put_aggs(2)]),
         make_family('reshape_both+put_invs', [reshape_both(1), put_invs(2)]),
@@ -267,7 +268,6 @@ def families(tier):
             make_family('put_inv+delete_traits', [put_inv(1),
                                                   delete_traits(2)]),
             make_family('reshape+put_invs', [reshape(1), put_invs(2)]),
-            make_family('put_aggs+put_aggs', [put_aggs(1), put_aggs(2)]),
             make_family('put_traits+put_traits', [put_traits(1),
                                                   put_traits(2)]),
             make_family('post_inv+put_invs', [post_inv(1), put_invs(2)]),
